@@ -3,6 +3,7 @@
 package c10
 
 import (
+	"bytes"
 	"crypto"
 	"crypto/rsa"
 	"crypto/x509"
@@ -176,7 +177,13 @@ func init() {
 			nots = append(nots, []byte("not ")...)
 		}
 		nots = append(nots, []byte("a:b")...)
-		reg("ABE", entry{name: "tkn20.Policy.FromString", seeds: pols[:3], extra: append(pols, deep, nots), max: 8000, f: func(b []byte) {
+		// nesting far beyond any stack: three million "(" (closed and not
+		// closed) and 1.5 million "not": the parser must answer, not exhaust the
+		// goroutine stack (a fatal error no caller can recover from)
+		huge := bytes.Repeat([]byte{'('}, 3000000)
+		hugeClosed := append(append(bytes.Repeat([]byte{'('}, 2000000), []byte("a:b")...), bytes.Repeat([]byte{')'}, 2000000)...)
+		hugeNots := append(bytes.Repeat([]byte("not "), 1500000), []byte("a:b")...)
+		reg("ABE", entry{name: "tkn20.Policy.FromString", seeds: pols[:3], extra: append(pols, deep, nots, huge, hugeClosed, hugeNots), max: 8000, f: func(b []byte) {
 			var p tkn20.Policy
 			if p.FromString(string(b)) == nil {
 				_ = p.String()
